@@ -19,21 +19,37 @@ import (
 type quiet struct{}
 
 func (quiet) Level(syslog.Lv) syslog.Logger { return quiet{} }
-func (quiet) Pref(any) syslog.Logger        { return quiet{} }
-func (quiet) Trace(...any)                  {}
-func (quiet) Tracef(string, ...any)         {}
-func (quiet) Debug(...any)                  {}
-func (quiet) Debugf(string, ...any)         {}
-func (quiet) Info(...any)                   {}
-func (quiet) Infof(string, ...any)          {}
-func (quiet) Warn(...any)                   {}
-func (quiet) Warnf(string, ...any)          {}
-func (quiet) Error(...any)                  {}
-func (quiet) Errorf(string, ...any)         {}
-func (quiet) Panic(v ...any)                { panic(fmt.Sprint(v...)) }
-func (quiet) Panicf(f string, v ...any)     { panic(fmt.Sprintf(f, v...)) }
-func (quiet) Fatal(v ...any)                { panic("FATAL: " + fmt.Sprint(v...)) }
-func (quiet) Fatalf(f string, v ...any)     { panic("FATAL: " + fmt.Sprintf(f, v...)) }
+func (quiet) Pref(p any) syslog.Logger      { return prefixed{P: fmt.Sprint(p)} }
+
+// prefixed is what the quiet logger hands out for a prefix: it remembers the prefix, so a monitor can tell
+// which prefix a logger field was given.
+type prefixed struct {
+	quiet
+	P string
+}
+
+// PrefixOf returns the prefix a logger handed out by the quiet logger was made for ("", false otherwise).
+func PrefixOf(l syslog.Logger) (string, bool) {
+	if p, ok := l.(prefixed); ok {
+		return p.P, true
+	}
+	return "", false
+}
+
+func (quiet) Trace(...any)              {}
+func (quiet) Tracef(string, ...any)     {}
+func (quiet) Debug(...any)              {}
+func (quiet) Debugf(string, ...any)     {}
+func (quiet) Info(...any)               {}
+func (quiet) Infof(string, ...any)      {}
+func (quiet) Warn(...any)               {}
+func (quiet) Warnf(string, ...any)      {}
+func (quiet) Error(...any)              {}
+func (quiet) Errorf(string, ...any)     {}
+func (quiet) Panic(v ...any)            { panic(fmt.Sprint(v...)) }
+func (quiet) Panicf(f string, v ...any) { panic(fmt.Sprintf(f, v...)) }
+func (quiet) Fatal(v ...any)            { panic("FATAL: " + fmt.Sprint(v...)) }
+func (quiet) Fatalf(f string, v ...any) { panic("FATAL: " + fmt.Sprintf(f, v...)) }
 
 var Quiet syslog.Logger = quiet{}
 
